@@ -456,3 +456,61 @@ def same(ctx, fi: FuncInfo, node, *expected: str) -> bool:
         if canon(ctx, en, fi) == got:
             return True
     return False
+
+
+# ----------------------------------------------------------------------- callables given as values
+def callable_body(ctx, node, fi: FuncInfo):
+    """A callable passed as a value - a lambda, a bound method `self._m` / `cls._m`, or the name of a function (a local closure
+    included) - whose body is ONE expression: -> ([parameter names], expression) or None."""
+    if isinstance(node, ast.Lambda):
+        a = node.args
+        if a.vararg or a.kwarg or a.kwonlyargs:
+            return None
+        return [x.arg for x in a.posonlyargs + a.args], node.body
+    target = None
+    drop = 0
+    if isinstance(node, ast.Attribute) and isinstance(node.value, ast.Name) and node.value.id in ('self', 'cls') and fi.cls is not None:
+        target = ctx.prog.find_method(fi.cls, node.attr)
+        if target is not None and target.kind in ('method', 'classmethod'):
+            drop = 1
+    elif isinstance(node, ast.Name):
+        nested = ctx.prog.nested_functions(fi)
+        if node.id in nested:
+            target = nested[node.id]
+        else:
+            b = ctx.prog.resolve(fi.module, node.id)
+            if b is not None and b.kind == 'def':
+                target = b.value
+    if target is None or symex.INLINER is None:
+        return None
+    e = symex.INLINER.single_expr(target)
+    if e is None:
+        return None
+    return list(target.params[drop:]), e
+
+
+def store_table(fi: FuncInfo, limit=4000):
+    """{target text: [(path condition, value node)]} for every attribute / subscript store on every feasible path."""
+    out = {}
+    for sp in symex.func_sym_paths(fi, limit):
+        cond = sp.condition()
+        for e in sp.events:
+            if e.kind == 'store' and isinstance(e.target, ast.AST):
+                out.setdefault(src(e.target), []).append((cond, e.expr, sp))
+    return out
+
+
+def forced(fm, atom, value) -> bool:
+    """Every valuation that satisfies `fm` gives `atom` the truth value `value`."""
+    ats = G.atoms_of(fm)
+    if atom not in ats:
+        return False
+    others = [a for a in ats if a != atom]
+    if len(others) > 14:
+        return False
+    for bits in itertools.product([False, True], repeat=len(others)):
+        v = dict(zip(others, bits))
+        v[atom] = not value
+        if G.evaluate(fm, v):
+            return False
+    return True
